@@ -986,7 +986,7 @@ def R_json_copy(x):
 
 def minimise(plan: dict, refs: dict, figdir: str, cls: str, budget_n=120) -> dict:
     """Drop schedule switches (ddmin) while the same violation class persists."""
-    budget = [budget_n]
+    budget = [budget_n if not os.environ.get("VERIF_STOP_AFTER_FIRST") else 2]  # regression tooling: no shrinking
 
     def test(decs):
         cand = dict(plan, decisions=decs)
